@@ -14,17 +14,17 @@ import (
 // hTty — a fake Tty: feeds every Write to the reference terminal, records the
 // order of the calls the Tty contract constrains, reports a fixed window size.
 type hTty struct {
-	vt       *refVT
-	w, h     int
-	cb       func()
-	log      []string
-	inCh     chan []byte
-	wake     chan struct{}
-	drained  bool
-	running  bool
-	closed   bool
-	badOrder []string
-	writes   int
+	vt         *refVT
+	w, h       int
+	cb         func()
+	log        []string
+	inCh       chan []byte
+	wake       chan struct{}
+	drained    bool
+	running    bool
+	closed     bool
+	badOrder   []string
+	writes     int
 	lateWrites int
 }
 
